@@ -723,6 +723,8 @@ func (t *Table) IndexesDescription() ([]types.GlobalSecondaryIndexDescription, [
 	lsi := []types.LocalSecondaryIndexDescription{}
 
 	for indexName, index := range t.Indexes {
+		// every description needs its own name, the loop variable is shared between iterations
+		indexName := indexName
 		schema := index.keySchema.describe()
 		count := index.count()
 
